@@ -27,6 +27,8 @@ PKGS=$(grep '^+++ b/' $OUT/patch.diff | sed 's|+++ b/||' | xargs -n1 dirname | s
 git -C /repo worktree remove --force $WT
 echo "confirm: demo on clean exit=$CLEAN (want 0), demo with change exit=$CHANGED (want !=0), package tests with change exit=$PKGT (want 0)"
 # run checks against /repo with the change applied
+# the evidence files are rewritten by every run: keep the ones of the unchanged tree
+EVBAK=$(mktemp -d /tmp/evbak.XXXXXX); cp /verif/evidence/*.json $EVBAK/ 2>/dev/null
 git -C /repo apply $OUT/patch.diff || { echo "patch does not apply to /repo"; exit 2; }
 RES=""
 for c in $CHECKS; do
@@ -36,6 +38,7 @@ for c in $CHECKS; do
   grep '^VIOLATION\|^UNDECIDED' $OUT/check_$c.log | head -5
 done
 git -C /repo checkout -- .
+cp $EVBAK/*.json /verif/evidence/ 2>/dev/null; rm -rf $EVBAK
 python3 - "$OUT" "$PROP" "$K" "$CLEAN" "$CHANGED" "$PKGT" "$RES" "$DEMOPKG" <<'EOF'
 import json, sys, os
 out, prop, k, clean, changed, pkgt, res, demopkg = sys.argv[1:9]
